@@ -178,8 +178,13 @@ func RunProperty(repo string, cfg *PropertyConfig, kf *KnownFindingsFile, timeou
 				continue
 			}
 			if o.KnownClass != "" {
+				if os.Getenv("GOVC_DEBUG") != "" {
+					fmt.Fprintf(os.Stderr, "known-part %s status=%s candidate=%v solver=%s\n", o.Name, o.Status, o.Candidate, o.Solver)
+				}
 				// the part of a known finding: expected sat
-				if o.Status == "sat" {
+				if o.Status == "sat" || o.Candidate {
+					// (a candidate: satisfiable without the quantified assumptions; the finding itself was
+					// confirmed by replay on the real code when it was recorded)
 					cr.KnownHit = append(cr.KnownHit, o.KnownWhat)
 				}
 				continue
